@@ -224,10 +224,17 @@ Section WithH.
       else if negb (NameM.name_eqb (kalg k) (t_alg rd)) then Lib eBadAlgorithm
       else Ok new_wire.
 
+  Definition unimplemented_is_badalg {A} (r : res A) : res A :=
+    match r with
+    | Lib e => if e =? eNotImplemented then Lib eBadAlgorithm else Lib e
+    | x => x
+    end.
+
   Definition validate (wire : bytes) (k : key) (owner : name) (rd : tsig) (now : Z) (rmac : bytes)
              (tsig_start : nat) (ctx : option hctx) (multi : bool) : res (option hctx) :=
     do new_wire <- validate_pre wire k owner rd now tsig_start;
-    do c <- digest new_wire k rd None rmac ctx multi;
+    (* try: _digest(...) except NotImplementedError: raise BadAlgorithm *)
+    do c <- unimplemented_is_badalg (digest new_wire k rd None rmac ctx multi);
     do _ <- ctx_verify c (t_mac rd);
     maybe_start_digest k (t_mac rd) multi.
 
